@@ -26,6 +26,8 @@ fn candidates(v: &RVal) -> Vec<RVal> {
             let n = xs.len() as i64;
             let mut c: Vec<RVal> = (-(n + 2)..=(n + 1)).map(RVal::Int).collect();
             c.extend([s("first"), s("last"), s("size"), s("zz")]);
+            // fractional positions name no element (never a neighbour); as numbers and as numeric strings
+            c.extend([RVal::Float(0.5), RVal::Float(1.5), RVal::Float(-0.5), RVal::Float(n as f64 - 0.1), s("1.5"), s("0.9")]);
             c
         }
         RVal::Object(kv) => {
